@@ -1,5 +1,6 @@
 from sympy.physics import units
 from sympy.physics.units import convert_to
+from ..dimensions import assert_equivalent_dimension
 from .quantities import Quantity
 
 
@@ -34,5 +35,7 @@ def from_kelvin(value: float) -> Celsius:
 
 
 def from_kelvin_quantity(value: Quantity) -> Celsius:
+    # a quantity that is not a temperature (e.g. kelvin squared) must not be read as kelvins
+    assert_equivalent_dimension(value, "value", "from_kelvin_quantity", units.temperature)
     kelvin_value = float(convert_to(value, units.kelvin).subs(units.kelvin, 1).evalf())
     return from_kelvin(kelvin_value)
